@@ -179,6 +179,11 @@ def cases(chk):
     for n in range(1, 9):
         for how in ("send", "recv", "notify"):
             yield "history", {"auto": False, "contacts": 1, "events": [["send", 0], ["recv", 0], ["reinstall", 0], ["fault", n], [how, 0], [how, 0], ["send", 0]]}
+    # the same kind of fault at the FIRST contact (nothing remembered yet): what is accepted then must also be remembered — a first message or
+    # key bundle that went through while its identity could not be written leaves the contact open to any later identity
+    for n in range(1, 13):
+        for how in ("recv", "send", "notify"):
+            yield "history", {"auto": False, "contacts": 1, "events": [["fault", n], [how, 0], ["reinstall", 0], ["recv", 0], ["send", 0]]}
     for _ in range(chk.scale(30, 1000)):
         nc = r.choice([1, 1, 2])
         evs = [["send", 0], ["recv", r.randrange(nc)]]
